@@ -855,6 +855,49 @@ def rule_x8(F):
     return r
 
 
+def rule_x9(F):
+    """Every test block of every module is run - of every module FILE of the package directory, then: which entries of the
+    directory become modules is decided by their name (`*.roto`, not `pkg` / `mod`) and nothing else.  The entry's type is asked
+    for one thing only, directory or not (the descent); the read of a module file is not made to depend on `is_file` /
+    `is_symlink` / `metadata`: `DirEntry::file_type` does not follow links, so a module that is a symbolic link (a shared checks
+    module) would silently drop out of the tree and `roto test` would report success without having run its tests."""
+    r = RuleResult("C19.X9", "module discovery: whether a directory entry is read as a module depends on its name only, never on a file-type test other than is_dir", floor=1)
+    TYPE_TESTS = ("is_file", "is_symlink", "is_block_device", "is_char_device", "is_fifo", "is_socket", "symlink_metadata", "metadata", "read_link")
+    n = 0
+    for b in F.bodies_in(["src/file_tree.rs"]):
+        if not b.mir or "::tests::" in b.path or "{closure" in b.path:
+            continue
+        if not any((mir.callee_def(t) or "").endswith("fs::read_dir") for _, t in mir.calls(b)):
+            continue
+        reads = [bi for bi, t in mir.calls(b) if hir.last(mir.callee(t) or "") == "read" and "SourceFile" in (mir.callee(t) or "")]
+        reads += [bi for bi, t in mir.calls(b) if (mir.callee(t) or "").startswith("file_tree::") and hir.last(mir.callee(t) or "") not in ("find_files", "process_subdir", "read_error")
+                  and F.has(mir.callee(t)) and F.body(mir.callee(t)).mir and any(hir.last(mir.callee(t2) or "") == "read" and "SourceFile" in (mir.callee(t2) or "") for _, t2 in mir.calls(F.body(mir.callee(t))))]
+        if not reads:
+            continue
+        defs = mir.Defs(b)
+        dom = mir.dominators(b)
+        tests = {bi: hir.last(mir.callee_def(t) or "") for bi, t in mir.calls(b) if hir.last(mir.callee_def(t) or "") in TYPE_TESTS
+                 and ("FileType" in (mir.callee_def(t) or "") or "Path" in (mir.callee_def(t) or "") or "fs::" in (mir.callee_def(t) or "") or "DirEntry" in (mir.callee_def(t) or ""))}
+        for rb in sorted(set(reads)):
+            n += 1
+            guilty = None
+            for di in dom[rb]:
+                t = b.blocks[di]["term"]
+                if t["k"] != "switch" or not mir.is_place_op(t["o"]):
+                    continue
+                hit = mir.back_calls(b, defs, t["o"][1][0]) & set(tests)
+                if hit:
+                    guilty = tests[sorted(hit)[0]]
+            r.inst("%s: read of a module file #%d" % (hir.last(b.path), n), {"fn": b.path, "line": b.blocks[rb]["term"].get("line"), "depends_on_file_type_test": guilty})
+            if guilty:
+                r.bad(b.path, "module file read depends on a file-type test", relfile(b.file), b.blocks[rb]["term"].get("line") or b.line,
+                      "%s reads a module file only if `%s` said so: an entry that is a symbolic link to a module file is not a regular file for DirEntry::file_type, so the module - and "
+                      "every test block in it - silently disappears from the package (`roto test` exits 0 without having run them)" % (hir.last(b.path), guilty))
+    if n == 0:
+        r.missing("the read of module files in the directory walk of src/file_tree.rs")
+    return r
+
+
 def rules(ctx):
     F = ctx["F"]
-    return [rule_x1(F), rule_x2(F), rule_x3(F), rule_x4(F), rule_x5(F), rule_x6(F), rule_x7(F), rule_x8(F)]
+    return [rule_x1(F), rule_x2(F), rule_x3(F), rule_x4(F), rule_x5(F), rule_x6(F), rule_x7(F), rule_x8(F), rule_x9(F)]
